@@ -79,7 +79,8 @@ class Recorder:
 @st.composite
 def path_case(draw, n=(2, 4), raman=False, max_ch=40, multiband=False):
     eq = draw(netgen.equipment(raman_fiber=raman))
-    chain_kw = {'raman': raman, 'fiber_kw': {'lumped': False, 'per_freq_loss': False}}
+    # fused junctions next to RamanFiber spans crash auto-design (owned by C08): keep them apart here
+    chain_kw = {'raman': raman, 'fused': not raman, 'fiber_kw': {'lumped': False, 'per_freq_loss': False}}
     topo, truth = draw(netgen.topology(eq, n=n, extra_max=2, chain_kw=chain_kw))
     src = draw(st.integers(0, truth['n'] - 1))
     dst = draw(st.integers(0, truth['n'] - 2))
@@ -209,8 +210,80 @@ def run_c01(case, ctx):
     ctx.nontrivial(namp >= 2 and nfib >= 1 and len(last['f']) >= 2)
 
 
+# ------------------------------------------------------------------------------------------------ C02
+
+def run_c02(case, ctx):
+    """quality never improves along the path; passive elements leave it unchanged"""
+    import numpy as np
+    p = prepare(case, ctx)
+    if p is None:
+        return
+    if p.error is not None:
+        ctx.label('skipped:no-channel-in-band')
+        return
+    kinds = set()
+    grew_a = grew_n = False
+    for r in p.rec.records:
+        b, a = r['before'], r['after']
+        kind = r['kind']
+        if kind == 'Multiband_amplifier':
+            kind_rule = 'amp'
+        elif kind == 'Edfa':
+            kind_rule = 'amp'
+        elif kind in ('Roadm', 'Fused', 'Transceiver'):
+            kind_rule = 'passive'
+        elif kind == 'Fiber':
+            kind_rule = 'fiber'
+        else:
+            kind_rule = 'raman'
+        kinds.add(kind)
+        idx = {f: i for i, f in enumerate(b['f'])}
+        sel = [idx[f] for f in a['f'] if f in idx]
+        if len(sel) != len(a['f']):
+            ctx.violation('channel-appeared', f'{kind} {r["uid"]}: output has channels that were not in the input')
+            return
+        with np.errstate(divide='ignore', invalid='ignore'):
+            a_in, n_in = (b['ase'] / b['signal'])[sel], (b['nli'] / b['signal'])[sel]
+            a_out, n_out = a['ase'] / a['signal'], a['nli'] / a['signal']
+        where = f'{kind} {r["uid"]}'
+        if (a_out < a_in * (1 - 1e-12) - 1e-300).any():
+            i = int(np.argmax(a_in - a_out))
+            ctx.violation(f'osnr-improved:{kind}', f'{where}: ch {a["f"][i]}: ase/signal {a_in[i]!r} -> {a_out[i]!r}')
+            return
+        if (n_out < n_in * (1 - 1e-12) - 1e-300).any():
+            i = int(np.argmax(n_in - n_out))
+            ctx.violation(f'snr-nli-improved:{kind}', f'{where}: ch {a["f"][i]}: nli/signal {n_in[i]!r} -> {n_out[i]!r}')
+            return
+        same_a = (np.abs(a_out - a_in) <= 1e-12 * np.maximum(a_in, a_out)).all()
+        same_n = (np.abs(n_out - n_in) <= 1e-12 * np.maximum(n_in, n_out)).all()
+        if kind_rule == 'passive' and not (same_a and same_n):
+            ctx.violation(f'passive-changed-quality:{kind}', f'{where}: ase/signal {a_in[:3]}->{a_out[:3]}, '
+                                                             f'nli/signal {n_in[:3]}->{n_out[:3]}')
+            return
+        if kind_rule == 'amp' and not same_n:
+            ctx.violation(f'amplifier-changed-snr-nli:{kind}', f'{where}: nli/signal {n_in[:3]}->{n_out[:3]}')
+            return
+        if kind_rule == 'fiber' and not same_a:
+            ctx.violation('fiber-changed-osnr', f'{where}: ase/signal {a_in[:3]}->{a_out[:3]}')
+            return
+        grew_a |= bool((a_out > a_in * (1 + 1e-9)).any())
+        grew_n |= bool((n_out > n_in * (1 + 1e-9)).any())
+    for k in sorted(kinds):
+        ctx.label('kind:' + k)
+    ctx.label(f'nli:{case["sim"]["nli_params"]["method"]}', f'raman:{case["sim"]["raman_params"]["flag"]}')
+    ctx.nontrivial(len(kinds) >= 3 and grew_a and grew_n)
+
+
 def make_check(prop):
     if prop == 'C01':
         return Check('B-path', path_case(), run_c01, quick=160, thorough=6000,
                      doc='decomposition after every element of a real propagation + receiver figures')
+    if prop == 'C02':
+        return Check('path-monotonic', path_case(), run_c02, quick=220, thorough=8000,
+                     doc='per-element, per-channel ASE/signal and NLI/signal ratios never decrease; passive unchanged')
+    if prop == 'C02-raman':
+        return Check('path-monotonic-raman', path_case(n=(2, 3), raman=True, max_ch=12), run_c02, quick=24, thorough=600,
+                     doc='same with RamanFiber spans and the Raman solver on')
     raise KeyError(prop)
+
+
